@@ -14,6 +14,9 @@ if "--checks" in sys.argv:
 ROUND = ""
 if "--round" in sys.argv:
     ROUND = sys.argv[sys.argv.index("--round") + 1]
+PHASE = "both"
+if "--phase" in sys.argv:
+    PHASE = sys.argv[sys.argv.index("--phase") + 1]  # confirm: scratch worktree only; check: /repo only (needs an earlier confirm)
 WT = "/tmp/seed%s-%s" % (ROUND, ID)
 SRC = "/tmp/seed%s-%s-out/%s" % (ROUND, ID, V)
 OUT = "/verif/seeded/%s-%s%s" % (ID, V, ROUND)
@@ -45,43 +48,50 @@ import re
 names = re.findall(r"^func (Test\w+)\(", open(demo).read(), re.M)
 runpat = "^(" + "|".join(names) + ")$"
 
-sh("git checkout -q -- . && git clean -fdq", WT)
-rc, out = sh("git apply --check %s" % patch, WT)
+if PHASE == "check":
+    prev = json.load(open(os.path.join(OUT, "meta.json")))
+    res.update({k: prev[k] for k in ("demo_without_change_passes", "builds", "demo_with_change_fails", "suite_passes_with_change", "suite_wall_s", "confirmed") if k in prev})
+    patch = os.path.join(OUT, "patch.diff")
+ok = res.get("confirmed", False)
+if PHASE != "check":
+  sh("git checkout -q -- . && git clean -fdq", WT)
+rc, out = (0, "") if PHASE == "check" else sh("git apply --check %s" % patch, WT)
 if rc != 0:
     print("patch does not apply to scratch worktree:", out); sys.exit(2)
-shutil.copy(demo, os.path.join(WT, demo_rel))
-# without the change: demo passes
-rc0, out0 = sh("go test -vet=off -count=1 -run '%s' %s" % (runpat, pkg), WT)
-res["demo_without_change_passes"] = (rc0 == 0)
-sh("git apply %s" % patch, WT)
-rcb, outb = sh("go build ./...", WT)
-res["builds"] = (rcb == 0)
-# with the change: demo fails (schedule-dependent demos: up to 3 runs)
-fails = 0
-for i in range(3):
-    rc1, out1 = sh("go test -vet=off -count=1 -run '%s' %s" % (runpat, pkg), WT)
-    if rc1 != 0:
-        fails += 1
-        break
-res["demo_with_change_fails"] = fails > 0
-# existing suite with the change (demo file removed so it does not count)
-os.remove(os.path.join(WT, demo_rel))
-t0 = time.time()
-rcs, outs = sh("go test -vet=off -count=1 ./... 2>&1 | grep -v 'no test files'", WT, timeout=2400)
-res["suite_passes_with_change"] = ("FAIL" not in outs)
-res["suite_wall_s"] = round(time.time() - t0)
-if "FAIL" in outs:
-    res["suite_failures"] = [l for l in outs.splitlines() if "FAIL" in l][:10]
-sh("git checkout -q -- . && git clean -fdq", WT)
-ok = res["builds"] and res["demo_without_change_passes"] and res["demo_with_change_fails"] and res["suite_passes_with_change"]
-res["confirmed"] = ok
-print(json.dumps(res, indent=1))
-os.makedirs(OUT, exist_ok=True)
-shutil.copy(patch, os.path.join(OUT, "patch.diff"))
-shutil.copy(demo, os.path.join(OUT, os.path.basename(demo)))
+if PHASE != "check":
+  shutil.copy(demo, os.path.join(WT, demo_rel))
+  # without the change: demo passes
+  rc0, out0 = sh("go test -vet=off -count=1 -run '%s' %s" % (runpat, pkg), WT)
+  res["demo_without_change_passes"] = (rc0 == 0)
+  sh("git apply %s" % patch, WT)
+  rcb, outb = sh("go build ./...", WT)
+  res["builds"] = (rcb == 0)
+  # with the change: demo fails (schedule-dependent demos: up to 3 runs)
+  fails = 0
+  for i in range(3):
+      rc1, out1 = sh("go test -vet=off -count=1 -run '%s' %s" % (runpat, pkg), WT)
+      if rc1 != 0:
+          fails += 1
+          break
+  res["demo_with_change_fails"] = fails > 0
+  # existing suite with the change (demo file removed so it does not count)
+  os.remove(os.path.join(WT, demo_rel))
+  t0 = time.time()
+  rcs, outs = sh("go test -vet=off -count=1 ./... 2>&1 | grep -v 'no test files'", WT, timeout=2400)
+  res["suite_passes_with_change"] = ("FAIL" not in outs)
+  res["suite_wall_s"] = round(time.time() - t0)
+  if "FAIL" in outs:
+      res["suite_failures"] = [l for l in outs.splitlines() if "FAIL" in l][:10]
+  sh("git checkout -q -- . && git clean -fdq", WT)
+  ok = res["builds"] and res["demo_without_change_passes"] and res["demo_with_change_fails"] and res["suite_passes_with_change"]
+  res["confirmed"] = ok
+  print(json.dumps(res, indent=1))
+  os.makedirs(OUT, exist_ok=True)
+  shutil.copy(patch, os.path.join(OUT, "patch.diff"))
+  shutil.copy(demo, os.path.join(OUT, os.path.basename(demo)))
 # run our checks against /repo with the change applied
 runs = {}
-if ok:
+if ok and PHASE != "confirm":
     rc, out = sh("git -C /repo diff --quiet && git -C /repo apply --check %s" % patch, "/verif")
     if rc != 0:
         rc3, out3 = sh("git -C /repo diff --quiet && git -C /repo apply --3way %s" % patch, "/verif")
